@@ -66,6 +66,8 @@ def designs(tier):
     out.append({'d': 'twodelay'})
     # an FSM block that reads the serializer's ready output directly (no combinational flow control in between)
     out.append({'d': 'uart_seq'})
+    # a multi-output combinational leaf created AFTER the consumers of its outputs, between a counter and registers
+    out.append({'d': 'multiout'})
     # the clocked recorder among the sequential blocks it watches (created first / in the middle / last)
     for pos in (0, 1, 2):
         out.append({'d': 'wave', 'pos': pos})
@@ -84,13 +86,19 @@ def designs(tier):
     return out
 
 
+class _Abort(Exception):
+    pass
+
+
 class _Stopper:
     def __init__(self, sim):
-        self.sim, self.n, self.at = sim, 0, None
+        self.sim, self.n, self.at, self.boom = sim, 0, None, False
 
     def simulatorUpdated(self):
         self.n += 1
         if self.n == self.at:
+            if self.boom:
+                raise _Abort()
             self.sim.stop()
 
 
@@ -221,6 +229,16 @@ def build(d, sub=None):
         UARTSerializer(hw, 'ser', ready, valid, v, pulse, tx)
         MsgSequencer(hw, 'msg', ready, valid, v, 'aZ')
         py4hw.Reg(hw, 'rtx', tx, hw.wire('qtx'))
+    elif k == 'multiout':
+        inc = I('inc')
+        cnt = hw.wire('cnt', 2)
+        b0, b1, n0, n1 = hw.wire('b0'), hw.wire('b1'), hw.wire('n0'), hw.wire('n1')
+        py4hw.Not(hw, 'inv0', b0, n0)
+        py4hw.Not(hw, 'inv1', b1, n1)
+        py4hw.Reg(hw, 'r0', n0, hw.wire('q0'))
+        py4hw.Reg(hw, 'r1', n1, hw.wire('q1'))
+        py4hw.BitsLSBF(hw, 'bits', cnt, [b0, b1])
+        py4hw.Counter(hw, 'cnt', hw.wire('never'), inc, cnt)
     elif k == 'resetchain':
         # registers with individual reset / enable ports feeding plain registers (and vice versa), 2-bit data
         x, r0, r2, e1 = I('x', 2), I('rst0'), I('rst2'), I('e1')
@@ -440,7 +458,13 @@ def explore_design(d, sub, res):
                         poke(c, x)
                         c.sim.total_clks = t0
                         stopper.n, stopper.at = 0, k
-                        c.sim.clk(n)
+                        # for n == 3 the run is not stopped but aborted: the listener raises, the caller catches and goes on
+                        stopper.boom = (n == 3)
+                        try:
+                            c.sim.clk(n)
+                        except _Abort:
+                            pass
+                        stopper.boom = False
                         mid = c.sim.total_clks
                         stopper.at = None
                         c.sim.clk(2)
@@ -452,8 +476,14 @@ def explore_design(d, sub, res):
                             c.sim.clk(1)
                         ref = (st.snapshot(), c.sim.total_clks)
                         res['evaluations'] += 1
-                        if got != ref or mid != t0 + k:
-                            c.problem = {'sigkey': 'stop_request', 'n': n, 'stop_in_cycle': k, 'inputs': list(x),
+                        if n == 3:
+                            # aborted by an exception: the cycle counter is not part of the comparison (the statement does not
+                            # say what it shows after an aborted call), the circuit state is
+                            bad = got[0] != ref[0]
+                        else:
+                            bad = got != ref or mid != t0 + k
+                        if bad:
+                            c.problem = {'sigkey': 'stop_request' if n != 3 else 'run_after_aborted_call', 'n': n, 'stop_in_cycle': k, 'inputs': list(x),
                                          'cycles_after_stopped_call': mid - t0, 'total_clks(after clk(2), k+2 single calls)': [got[1] - t0, ref[1] - t0]}
                             break
                     if c.problem:
@@ -564,6 +594,21 @@ def cross_system(res):
             out.append(c.st.snapshot())
         return out
     sa, sb = solo(da, xa, 4), solo(db, xb, 4)
+    # both systems poked first, then both clocked (lockstep co-simulation), either one first
+    for order in ('AB', 'BA'):
+        ca, cb = build(da), build(db)
+        for i in range(4):
+            for c, xs in ((ca, xa), (cb, xb)):
+                for w, v in zip(c.free, xs[i]):
+                    w.put(v)
+            for ch in order:
+                (ca if ch == 'A' else cb).sim.clk(1)
+            res['evaluations'] += 1
+            for ch, c, exp in (('A', ca, sa[i]), ('B', cb, sb[i])):
+                if c.st.snapshot() != exp:
+                    res['violations'].append({'sig': 'C05:cross_system_leak', 'shard': {'d': 'cross'}, 'trace': [['lockstep', order, i]],
+                                              'detail': {'pattern': 'poke A, poke B, then clk %s, clk %s' % (order[0], order[1]), 'system': ch, 'step': i}})
+                    return
     for L in range(1, 5):
         for pat in itertools.product('AB', repeat=L):
             ca, cb = build(da), build(db)
@@ -623,6 +668,13 @@ def replay(v):
         hit = [x for x in res['violations'] if x['sig'] == v['sig']]
         return {'design': d, 'violates': bool(hit), 'detail': [x['detail'] for x in hit[:1]]}
     dd = {'d': d['d'], 'n': d.get('n')} if sub else d
+    if any(k in v['sig'] for k in ('stop_request', 'run_after_aborted_call')):
+        # found by the stop()/abort part of the per-transition checks: the design is explored again, the same finding must come up
+        res = {'programs': 0, 'states': 0, 'transitions': 0, 'traces_validated_against_impl': 0, 'evaluations': 0,
+               'violations': [], 'samples': [], '_outcomes': set()}
+        explore_design(dd, sub, res)
+        hit = [x for x in res['violations'] if x['sig'] == v['sig']]
+        return {'design': d, 'violates': bool(hit), 'detail': [x['detail'] for x in hit[:1]]}
     obs = {}
     tr = [tuple(x) for x in v['trace']]
     P, _ = schedules(build(dd, sub))
